@@ -343,7 +343,12 @@ func cmdCheck(args []string) int {
 	}
 	_ = os.MkdirAll(filepath.Join(verifDir(), "evidence"), 0o755)
 	data, _ := json.MarshalIndent(ev, "", " ")
-	_ = os.WriteFile(filepath.Join(verifDir(), "evidence", id+".json"), data, 0o644)
+	evPath := filepath.Join(verifDir(), "evidence", id+".json")
+	if only != "" {
+		// partial (debugging) run: never overwrite the property's evidence file
+		evPath = filepath.Join(verifDir(), "out", id+".partial-evidence.json")
+	}
+	_ = os.WriteFile(evPath, data, 0o644)
 	fmt.Printf("%s [%s]: %d functions, %d obligations, %d discharged, %d vacuity guards (%d sat, %d sat-ground, %d unknown), %d known-finding halves; load %.1fs gen %.1fs solve %.1fs\n",
 		id, tier, len(fnReports), nObl, nDis, nVac, nVacOK, nVacGround, nVacUnknown, nFinding, tLoad, genS, solveS)
 	for _, w := range warns {
